@@ -392,6 +392,9 @@ def _run_one(engine, prop, base_seed, tier, index):
         # the violation is about state that earlier runs left in this
         # process: the replay file carries them
         run["history"] = [dict(h) for h in _HISTORY]
+    elif v is not None and getattr(engine, "track_history", False):
+        # kept aside: used only if the plain replay does not reproduce
+        res["worker_history"] = [dict(h) for h in _HISTORY]
     if getattr(engine, "track_history", False):
         _HISTORY.append({k: run[k] for k in ("config", "ops", "property",
                                              "index")})
@@ -630,7 +633,7 @@ def check(engine_name, prop, tier, base_seed, n_runs, budget_s, workers,
             if f is not None:
                 known_hit[f["id"]] = known_hit.get(f["id"], 0) + 1
             else:
-                unknown.setdefault(signature(v), r)
+                unknown.setdefault(signature(v), []).append(r)
 
     for f in findings:
         if f.get("status") == "open" and f["property"] == prop \
@@ -641,34 +644,55 @@ def check(engine_name, prop, tier, base_seed, n_runs, budget_s, workers,
     exit_code = 0
     n_viol = 0
     REPLAYS.mkdir(exist_ok=True)
-    for sig, r in sorted(unknown.items())[:3]:
-        run, viol = r["run"], r["violation"]
-        try:
-            small = minimise(engine, run, viol, budget_s=minimise_budget)
-        except Exception as e:
-            print(f"HARNESS-ERROR property={prop} minimisation failed: {e!r}")
-            return 2
-        if viol.get("needs_history"):
-            v2 = viol
-        else:
-            res = engine.execute(small)
-            v2 = res.get("violation")
-            if v2 is None or signature(v2) != sig:
-                # minimised run does not reproduce in-process: fall back to
-                # the original run
-                small, v2 = run, viol
-        small = dict(small)
-        small["violation"] = v2
-        name = f"{prop}-{base_seed}-{run['index']}-{sig[1]}.json"
-        path = REPLAYS / name
-        path.write_text(json.dumps(small, indent=1, sort_keys=True,
-                                   default=_json_default))
-        ok, proc = replay_in_fresh_interpreter(path, sig)
-        if not ok:
+    for sig, cands in sorted(unknown.items())[:3]:
+        reported = False
+        last_fail = None
+        for r in cands[:4]:
+            run, viol = r["run"], r["violation"]
+            attempts = [(run, viol)]
+            if r.get("worker_history") and not viol.get("needs_history"):
+                # state left behind by earlier runs of the same worker may
+                # be what this run tripped over: second attempt with them
+                v_h = dict(viol, needs_history=True)
+                attempts.append((dict(run, history=r["worker_history"]),
+                                 v_h))
+            for run_a, viol_a in attempts:
+                try:
+                    small = minimise(engine, run_a, viol_a,
+                                     budget_s=minimise_budget)
+                except Exception as e:
+                    print(f"HARNESS-ERROR property={prop} minimisation "
+                          f"failed: {e!r}")
+                    return 2
+                if viol_a.get("needs_history"):
+                    v2 = viol_a
+                else:
+                    res = engine.execute(small)
+                    v2 = res.get("violation")
+                    if v2 is None or signature(v2) != sig:
+                        small, v2 = run_a, viol_a
+                small = dict(small)
+                small["violation"] = v2
+                name = f"{prop}-{base_seed}-{run['index']}-{sig[1]}.json"
+                path = REPLAYS / name
+                # (no key sorting: the order of keyword arguments inside
+                # an op can be part of what makes a run fail)
+                path.write_text(json.dumps(small, indent=1,
+                                           default=_json_default))
+                ok, proc = replay_in_fresh_interpreter(path, sig)
+                if ok:
+                    reported = True
+                    break
+                last_fail = (run["index"], proc)
+            if reported:
+                break
+        if not reported:
+            idx, proc = last_fail
             print(f"HARNESS-ERROR property={prop} violation {sig} of run "
-                  f"{run['index']} did not reproduce in a fresh interpreter "
-                  f"(rc={proc.returncode})\n{proc.stdout[-2000:]}\n"
-                  f"{proc.stderr[-2000:]}", flush=True)
+                  f"{idx} (and {len(cands) - 1} more runs) did not reproduce "
+                  f"in a fresh interpreter (rc={proc.returncode})\n"
+                  f"{proc.stdout[-2000:]}\n{proc.stderr[-2000:]}",
+                  flush=True)
             return 2
         n_viol += 1
         exit_code = 1
@@ -677,8 +701,9 @@ def check(engine_name, prop, tier, base_seed, n_runs, budget_s, workers,
               f"features={jdump(v2['features'])}", flush=True)
         print(f"  {v2['message']}", flush=True)
         print(f"  ops: {len(small['ops'])} (minimised from "
-              f"{small.get('minimised_from_ops', len(run['ops']))}), seed "
-              f"{run['seed']}, replay with: ./check --replay {path}",
+              f"{small.get('minimised_from_ops', len(run['ops']))})"
+              f"{', with ' + str(len(small['history'])) + ' earlier runs of the worker' if small.get('history') else ''}"
+              f", seed {run['seed']}, replay with: ./check --replay {path}",
               flush=True)
     if len(unknown) > 3:
         print(f"  ({len(unknown) - 3} further violation signatures not "
